@@ -110,18 +110,26 @@ PROPS = {
         trusted_base=["docutils node model (contracts/assumed_docutils.py)"],
     ),
     "C16": dict(
-        level="exploration",
-        contracts=[],
+        level="other",
+        contracts=["contracts.parse_html"],
         harness=True,
         explanation=(
-            "BOUNDED ONLY (no obligation discharged yet for parsers/parse_html.py): totality and tree consistency "
-            "(parent pointers, each element once, walk = all elements) of tokenize_html on all short strings over a "
-            "markup alphabet and random markup soup; exact round trip, strip/deepcopy purity and result, and find() vs "
-            "an independent pre-order filter on grammar-generated well-formed HTML."
+            "PROVED (pyvc, for all states and all string arguments, no bound), relative to the assumed event contract of "
+            "html.parser.HTMLParser: the tree builder keeps the global consistency invariant WF - for every element, each "
+            "child is an allocated element whose parent is that element - through Element.insert, Tree.nest_tag / nest_xtag / "
+            "nest_vtag / nest_terminal and every handle_* method; Element.insert / __setitem__ set the parent and refuse an "
+            "element that belongs elsewhere (AssertionError, the documented error); the open-element stack is never empty "
+            "and rooted at the root (T_inv), so no handler can raise (handle_endtag: for non-empty tag names and the default "
+            "root name); Tree.enclose cuts the stack just before the LAST open element with that name, or leaves it alone; "
+            "every terminal element renders to the source form of its event (Data, Declaration, Comment, Pi, Char, Entity).  "
+            "Element.__init__, MutableSequence.append (= insert at the end), collections.deque (as a list) and the terminal "
+            "class constructors are assumed contracts.  NOT under contract: walk / find / strip / deepcopy / reset_children, "
+            "Tag/XTag/VoidTag.render and Attribute.__str__ (generators, comprehensions over a dict subclass), hence BOUNDED: "
+            "totality and tree consistency on all short strings and markup soup, exact round trip, strip/copy purity and "
+            "find() vs an independent filter on grammar-generated well-formed HTML."
         ),
-        assumptions=["CPython 3.12.1 html.parser (event stream)"],
-        trusted_base=[],
-        technique="bounded run-time stand-in (exhaustive small strings + grammar generation) - no contract discharged for this module yet",
+        assumptions=ENC + ["CPython 3.12.1 html.parser event stream"],
+        trusted_base=["html.parser.HTMLParser (events), abc.MutableSequence.append, collections.deque"],
     ),
     "C18": dict(
         level="other",
@@ -148,13 +156,14 @@ PROPS = {
     ),
     "C01": dict(
         level="other",
-        contracts=["contracts.options"],
+        contracts=["contracts.options", "contracts.parse_html"],
         flow=["checks.flow_exc:run"],
         harness=True,
         explanation=(
             "Totality of the whole pipeline is NOT decidable by contracts on MyST alone (markdown-it, docutils transforms, "
             "Sphinx, Jinja and pygments are external).  What is decided: (1) PROVED (pyvc, all strings): the directive-option "
-            "tokenizer raises nothing but TokenizeError and terminates (all of parsers/options.py, shared with C07); "
+            "tokenizer raises nothing but TokenizeError and terminates (all of parsers/options.py, shared with C07), and no "
+            "handler of the HTML-to-AST parser can raise for any string argument (parse_html handlers, shared with C16); "
             "(2) PROVED modularly on the AST (one obligation per function, real exception hierarchy introspected): every "
             "mechanism the property names contains what its callees may raise - read_topmatter, merge_file_level, "
             "render_front_matter, _parse_directive_options, parse_directive_arguments/text, run_directive, html_to_nodes, "
